@@ -1,8 +1,34 @@
 package verifrt
 
-import "time"
+import (
+	"fmt"
+	"os"
+	"time"
+)
 
 func timeAfter(seconds int) <-chan time.Time { return time.After(time.Duration(seconds) * time.Second) }
 
 func nativeQuiesce() { time.Sleep(100 * time.Millisecond) }
 func nativeYield()   { time.Sleep(time.Millisecond) }
+
+var boundedTimer *time.Timer
+
+// Bounded opens a region that must terminate: under the engine within the given number of
+// interpreted instructions (a bounded-termination obligation: running past the bound is a
+// violation with this label, not an inconclusive unwinding failure); natively within 10
+// seconds. BoundedEnd closes the region. Sequential harnesses only.
+func Bounded(label string, steps int) {
+	boundedTimer = time.AfterFunc(10*time.Second, func() {
+		fmt.Printf("VRT-ASSERT-FAILED %s\n", label)
+		os.Exit(1)
+	})
+}
+
+// BoundedEnd closes the region opened by Bounded.
+func BoundedEnd() {
+	if boundedTimer != nil {
+		boundedTimer.Stop()
+		boundedTimer = nil
+	}
+}
+
